@@ -998,6 +998,7 @@ class Emitter:
         if name in ("serde_json::Value::String", "Value::String", "toml::Value::String") and len(args) == 1:
             return self.tr(args[0], env, cx, lambda t, ty: k(f"(VStr {self.coerce(t, ty, 'str')})", ("named", "Value")))
         if name in cx.call_map:
+            if cx.call_map[name] not in self.u.fns: raise RsError(f"`{name}` dispatches to a function that could not be translated")
             return self.call_generated(cx.call_map[name], [], args, env, cx, k)
         if name in ("Value::Array", "Value::Object", "Value::Table", "toml::Value::Array", "toml::Value::Table") and len(args) == 1:
             c = "Arr" if name.endswith("Array") else "Obj"
@@ -1704,6 +1705,10 @@ def translate(repo, groups, types, fuel):
                 entry["status"] = "translated"
             except RsError as e:
                 entry["status"] = "not-translatable"; entry["error"] = str(e)
+            except RecursionError:
+                entry["status"] = "not-translatable"; entry["error"] = "internal: expression nesting too deep for the translator"
+            except Exception as e:          # a construct the emitter mishandles must fail THIS function closed, not the whole run
+                entry["status"] = "not-translatable"; entry["error"] = f"internal: {type(e).__name__}: {e}"
     return out, report
 
 
